@@ -106,7 +106,7 @@ def tlc(work, module, cfg=None, workers=1, timeout=600, env_extra=None, heap="4g
     """run TLC in the scratch spec dir; returns (rc, output, states_generated, distinct)"""
     md = tempfile.mkdtemp(prefix="md-", dir=work.dir)
     env = dict(os.environ)
-    env["JAVA_TOOL_OPTIONS"] = "-Xss64m -Xmx%s" % heap
+    env["JAVA_TOOL_OPTIONS"] = "-Xss64m -Xmx%s -Djava.io.tmpdir=%s" % (heap, md)      # TLC's scratch directory goes away with the work dir
     if env_extra:
         env.update(env_extra)
     cmd = ["java", "-XX:+UseParallelGC", "-cp", TLA_JAR + ":" + CM_JAR, "tlc2.TLC", "-workers", str(workers), "-metadir", md]
